@@ -489,11 +489,19 @@ Lemma nth_error_forallb {A} (f : A -> bool) l i x :
 Proof. intros H E. rewrite forallb_forall in H. apply H. eapply nth_error_In; eassumption. Qed.
 
 (* ------------------------------------------------------------------ retirement goroutines *)
-Definition rd_rel (r : retirement) (b : bool) : Prop := rt_pc_of r = RtDone -> b = true.
+Definition is_cd (x : tail_step) : bool := match x with TCloseDone => true | _ => false end.
+(* b: whether the done channel of this retirement is closed *)
+Definition rd_rel (r : retirement) (b : bool) : Prop :=
+  (b = true -> rt_closed r = true) /\
+  match rt_pc_of r with
+  | RtDone => b = true
+  | _ => if existsb is_cd (rt_tail r) then tail_ok (rt_closed r) (rt_tail r) = true else b = true
+  end.
 Definition rt_ok (T : tables) (no : N) (r : retirement) : Prop :=
   (0 <= rt_budget r <= Z.max 0 (t_budget_total T))%Z /\
   rt_pc_of r <> RtWait None /\
-  (forall dl, rt_pc_of r = RtWait (Some dl) -> (dl <= no + Z.to_N (rt_budget r))%N).
+  (forall dl, rt_pc_of r = RtWait (Some dl) -> (dl <= no + Z.to_N (rt_budget r))%N) /\
+  length (rt_tail r) <= length (t_ret_tail T).
 Definition R (T : tables) (s : state) : Prop :=
   Forall2 rd_rel (rets s) (dones s) /\ Forall (rt_ok T (now s)) (rets s).
 
@@ -593,7 +601,7 @@ Qed.
 
 Lemma rt_ok_mono T no no' r : (no <= no')%N -> rt_ok T no r -> rt_ok T no' r.
 Proof.
-  intros Hn (H1 & H2 & H3). split; [exact H1|]. split; [exact H2|].
+  intros Hn (H1 & H2 & H3 & H4). split; [exact H1|]. split; [exact H2|]. split; [|exact H4].
   intros dl E. specialize (H3 dl E). lia.
 Qed.
 
@@ -603,48 +611,141 @@ Proof. intros Hn H. eapply Forall_impl; [|exact H]. intros r Hr. eapply rt_ok_mo
 Lemma tables_guard T : tables_ok T = true -> guard_total (t_timer_guard T) = true.
 Proof. unfold tables_ok. intro H. bool_hyps. assumption. Qed.
 
-Lemma exec_prim_R T s p s' pre : R T s -> exec_prim T s p = (s', pre) -> R T s'.
+Lemma tables_tail T : tables_ok T = true -> tail_ok false (t_ret_tail T) = true.
+Proof. unfold tables_ok. intro H. bool_hyps. assumption. Qed.
+
+Lemma tail_ok_cd c l : tail_ok c l = true -> existsb is_cd l = true.
 Proof.
-  intros H E. destruct p; simpl in E;
+  revert c. induction l as [|x l IH]; intros c H; simpl in *; [discriminate|].
+  destruct x; simpl; eauto.
+Qed.
+
+Lemma exec_prim_R T s p s' pre :
+  tail_ok false (t_ret_tail T) = true -> R T s -> exec_prim T s p = (s', pre) -> R T s'.
+Proof.
+  intros HTl H E. destruct p; simpl in E;
     try (inversion E; subst s' pre; exact H).
   - inversion E; subst s' pre. unfold end_supp. destruct (supp s) as [|n]; [exact H|].
     destruct (Nat.eqb n 0); exact H.
   - destruct (fst (progress s)); inversion E; subst s' pre; exact H.
   - inversion E; subst s' pre. destruct H as [H1 H2]. unfold R. simpl. split.
     + apply Forall2_app; [apply cancel_last_F2; exact H1|].
-      constructor; [intro X; discriminate X | constructor].
+      constructor; [|constructor]. split; [intro X; discriminate X|]. simpl.
+      rewrite (tail_ok_cd _ _ HTl). exact HTl.
     + apply Forall_app. split.
       * apply cancel_last_F; [|exact H2]. intros r Hr. exact Hr.
       * constructor; [|constructor]. split; [apply remaining_budget_range|].
-        split; [discriminate|]. intros dl X; discriminate X.
+        split; [discriminate|]. split; [intros dl X; discriminate X|]. simpl. lia.
   - destruct (pend_ret s); inversion E; subst s' pre; exact H.
+Qed.
+
+(* one step of a retirement goroutine, as a function on its record *)
+Definition ret_next (T : tables) (no : N) (r : retirement) : retirement :=
+  match rt_pc_of r with
+  | RtInit =>
+      if rt_abort r || negb (rt_overlap r) || Nat.eqb (rt_sessions r) 0
+      then set_rt_pc RtTail r
+      else set_rt_pc (RtWait (if timer_armed (t_timer_guard T) (rt_budget r)
+                              then Some (no + Z.to_N (rt_budget r))%N else None)) r
+  | RtWait dl =>
+      if rt_cancelled r || rt_idle r || match dl with Some t => (t <=? no)%N | None => false end
+      then set_rt_pc RtTail r else r
+  | RtTail =>
+      match rt_tail r with
+      | [] => set_rt_pc RtDone r
+      | TCloseDone :: rest => rt_advance false rest r
+      | TCloseGen :: rest => rt_advance true rest r
+      | _ :: rest => rt_advance false rest r
+      end
+  | RtDone => r
+  end.
+Definition ret_closes (r : retirement) : bool :=
+  match rt_pc_of r, rt_tail r with RtTail, TCloseDone :: _ => true | _, _ => false end.
+
+Lemma upd_same {A} (l : list A) i x : nth_error l i = Some x -> upd l i x = l.
+Proof.
+  revert i; induction l as [|a l IH]; intros i H; [reflexivity|].
+  destruct i; simpl in *; [inversion H; reflexivity | rewrite (IH _ H); reflexivity].
+Qed.
+
+Lemma state_eta s : s = set_rets (rets s) (set_dones (dones s) s).
+Proof. destruct s; reflexivity. Qed.
+
+Lemma ret_view T s d r :
+  nth_error (rets s) d = Some r ->
+  ret_step T s d =
+  set_rets (upd (rets s) d (ret_next T (now s) r))
+    (set_dones (if ret_closes r then upd (dones s) d true else dones s) s).
+Proof.
+  intro E. unfold ret_step, ret_next, ret_closes. rewrite E.
+  destruct (rt_pc_of r) as [|dl| |].
+  - destruct (rt_abort r || negb (rt_overlap r) || Nat.eqb (rt_sessions r) 0);
+      destruct s; reflexivity.
+  - destruct (rt_cancelled r || rt_idle r || match dl with Some t => (t <=? now s)%N | None => false end).
+    + destruct s; reflexivity.
+    + rewrite (upd_same _ _ _ E). apply state_eta.
+  - destruct (rt_tail r) as [|x rest]; [destruct s; reflexivity|].
+    destruct x; destruct s; reflexivity.
+  - rewrite (upd_same _ _ _ E). apply state_eta.
+Qed.
+
+Ltac rtok :=
+  unfold rt_ok; simpl;
+  split; [assumption|
+  split; [try discriminate; try assumption|
+  split; [try (let dl := fresh in let X := fresh in intros dl X; discriminate X); try assumption
+         | try assumption; try (simpl in *; lia)]]].
+
+Lemma ret_next_ok T no r :
+  guard_total (t_timer_guard T) = true -> rt_ok T no r -> rt_ok T no (ret_next T no r).
+Proof.
+  intros HG (B1 & B2 & B3 & B4). unfold ret_next.
+  destruct r as [pc ab ov B se idl can cl tl]. simpl in *.
+  destruct pc as [|dl| |]; simpl.
+  - destruct (ab || negb ov || Nat.eqb se 0); simpl.
+    + rtok.
+    + rewrite (timer_armed_total _ _ HG (proj1 B1)). rtok.
+      intros dl X. inversion X. subst dl. apply N.le_refl.
+  - destruct (can || idl || match dl with Some t => (t <=? no)%N | None => false end); simpl; rtok.
+  - destruct tl as [|x rest]; [|destruct x]; simpl in *; rtok.
+  - rtok.
+Qed.
+
+Lemma ret_next_rel T no r b :
+  rd_rel r b -> rd_rel (ret_next T no r) (if ret_closes r then true else b).
+Proof.
+  unfold rd_rel, ret_next, ret_closes.
+  destruct r as [pc ab ov B se idl can cl tl]. simpl.
+  destruct pc as [|dl| |]; simpl.
+  - intros [H1 H2]. destruct (ab || negb ov || Nat.eqb se 0); simpl; split; assumption.
+  - intros [H1 H2].
+    destruct (can || idl || match dl with Some t => (t <=? no)%N | None => false end); simpl; split; assumption.
+  - intros [H1 H2]. destruct tl as [|x rest]; simpl in *; [split; assumption|].
+    destruct x; simpl in *; rewrite ?orb_false_r, ?orb_true_r.
+    + split; assumption.
+    + split; [reflexivity|]. destruct (existsb is_cd rest); assumption.
+    + split; assumption.
+    + apply andb_prop in H2. destruct H2 as [H2 H3]. apply negb_true_iff in H3.
+      split; [intros _; exact H2|]. change (existsb is_cd rest) with (existsb (fun x => match x with TCloseDone => true | _ => false end) rest). rewrite H3. reflexivity.
+    + split; assumption.
+  - intros H; exact H.
 Qed.
 
 Lemma ret_step_R T s d : guard_total (t_timer_guard T) = true -> R T s -> R T (ret_step T s d).
 Proof.
-  intros HG [H1 H2]. unfold ret_step.
-  destruct (nth_error (rets s) d) as [r|] eqn:E; [|split; assumption].
+  intros HG [H1 H2].
+  destruct (nth_error (rets s) d) as [r|] eqn:E; [|unfold ret_step; rewrite E; split; assumption].
+  rewrite (ret_view T s d r E).
   assert (Hr : rt_ok T (now s) r).
   { rewrite Forall_forall in H2. apply H2. eapply nth_error_In; eassumption. }
-  destruct Hr as (B1 & B2 & B3).
-  destruct (rt_pc_of r) as [|dl| |] eqn:Epc.
-  - destruct (rt_abort r || negb (rt_overlap r) || Nat.eqb (rt_sessions r) 0).
-    + split; simpl.
-      * eapply Forall2_upd_l; [exact H1 | exact E |]. intros y _ X; discriminate X.
-      * apply Forall_upd; [exact H2|]. split; [exact B1|]. split; [discriminate|]. intros dl X; discriminate X.
-    + rewrite (timer_armed_total _ _ HG (proj1 B1)). split; simpl.
-      * eapply Forall2_upd_l; [exact H1 | exact E |]. intros y _ X; discriminate X.
-      * apply Forall_upd; [exact H2|]. split; [exact B1|]. split; [discriminate|].
-        intros dl X. simpl in X. inversion X. subst dl. simpl. apply N.le_refl.
-  - destruct (rt_cancelled r || rt_idle r || match dl with Some t => (t <=? now s)%N | None => false end);
-      [|split; assumption].
-    split; simpl.
-    + eapply Forall2_upd_l; [exact H1 | exact E |]. intros y _ X; discriminate X.
-    + apply Forall_upd; [exact H2|]. split; [exact B1|]. split; [discriminate|]. intros dl' X; discriminate X.
-  - split; simpl.
-    + apply Forall2_upd_both; [exact H1|]. intros _. reflexivity.
-    + apply Forall_upd; [exact H2|]. split; [exact B1|]. split; [discriminate|]. intros dl' X; discriminate X.
-  - split; assumption.
+  destruct (Forall2_nth _ _ _ _ _ H1 E) as (b0 & Eb & Hb).
+  pose proof (ret_next_rel T (now s) r b0 Hb) as Hn.
+  split; simpl.
+  - destruct (ret_closes r) eqn:Ec.
+    + apply Forall2_upd_both; assumption.
+    + eapply Forall2_upd_l; [exact H1 | exact E |]. intros y Hy.
+      pose proof (ret_next_rel T (now s) r y Hy) as Hn'. rewrite Ec in Hn'. exact Hn'.
+  - apply Forall_upd; [exact H2|]. apply ret_next_ok; assumption.
 Qed.
 
 Lemma R_step T s a : tables_ok T = true -> R T s -> R T (step T s a).
@@ -660,11 +761,11 @@ Proof.
   - destruct (w_prog s); [|exact H]. destruct (queue s); [exact H|].
     destruct (nth_error (t_worker T) k); exact H.
   - destruct (w_prog s) as [|p ps]; [exact H|]. unfold prog_step.
-    destruct (exec_prim T s p) as [s' pre] eqn:E. exact (exec_prim_R _ _ _ _ _ H E).
+    destruct (exec_prim T s p) as [s' pre] eqn:E. exact (exec_prim_R _ _ _ _ _ (tables_tail T HT) H E).
   - destruct (m_prog s); [|exact H]. destruct (reloading s); [|exact H].
     destruct (nth_error (t_main T) k); exact H.
   - destruct (m_prog s) as [|p ps]; [exact H|]. unfold prog_step.
-    destruct (exec_prim T s p) as [s' pre] eqn:E. exact (exec_prim_R _ _ _ _ _ H E).
+    destruct (exec_prim T s p) as [s' pre] eqn:E. exact (exec_prim_R _ _ _ _ _ (tables_tail T HT) H E).
   - apply ret_step_R; [apply tables_guard; exact HT | exact H].
   - exact H.
   - destruct (nth_error (rets s) d) as [r|] eqn:E; [|exact H]. destruct H as [H1 H2]. split; simpl.
@@ -675,7 +776,7 @@ Proof.
   - unfold rel_step. destruct (nth_error (releasers s) r) as [[d0|[|p ps]]|]; try exact H.
     + destruct (nth d0 (dones s) false); exact H.
     + unfold prog_step. destruct (exec_prim T s p) as [s' pre] eqn:E.
-      exact (exec_prim_R _ _ _ _ _ H E).
+      exact (exec_prim_R _ _ _ _ _ (tables_tail T HT) H E).
   - destruct H as [H1 H2]. split; [exact H1|]. simpl. eapply rt_ok_all_mono; [|exact H2]. lia.
 Qed.
 
@@ -689,15 +790,15 @@ Proof.
 Qed.
 
 (* ------------------------------------------------------------------ never wedged: a measure *)
-Definition weight (M : nat) (p : prim) : nat :=
+Definition weight (L M : nat) (p : prim) : nat :=
   match p with
   | PReleaseAfterRetirement => 7
-  | PStartRetirement => 5
+  | PStartRetirement => 5 + L
   | PBeginHandoff => S M
   | _ => 1
   end.
-Fixpoint wsum (M : nat) (l : list prim) : nat :=
-  match l with [] => 0 | p :: l' => weight M p + wsum M l' end.
+Fixpoint wsum (L M : nat) (l : list prim) : nat :=
+  match l with [] => 0 | p :: l' => weight L M p + wsum L M l' end.
 Fixpoint maxl {A} (f : A -> nat) (l : list A) : nat :=
   match l with [] => 0 | x :: l' => Nat.max (f x) (maxl f l') end.
 
@@ -707,18 +808,19 @@ Proof.
   intros [E|E]; [subst; lia | specialize (IH E); lia].
 Qed.
 
-Lemma wsum_app M l1 l2 : wsum M (l1 ++ l2) = wsum M l1 + wsum M l2.
+Lemma wsum_app L M l1 l2 : wsum L M (l1 ++ l2) = wsum L M l1 + wsum L M l2.
 Proof. induction l1; simpl; [reflexivity | rewrite IHl1; lia]. Qed.
 
-Lemma wsum_nohandoff M l : existsb is_handoff l = false -> wsum M l = wsum 0 l.
+Lemma wsum_nohandoff L M l : existsb is_handoff l = false -> wsum L M l = wsum L 0 l.
 Proof.
   induction l as [|p l IH]; simpl; [reflexivity|].
   intro H. apply orb_false_iff in H. destruct H as [H1 H2]. rewrite (IH H2).
   destruct p; try discriminate; reflexivity.
 Qed.
 
-Definition Mmax (T : tables) : nat := S (maxl (fun p => wsum 0 (expand p)) (t_main T)).
-Definition Wmax (T : tables) : nat := S (maxl (fun p => wsum (Mmax T) (expand p)) (t_worker T)).
+Definition Lt (T : tables) : nat := length (t_ret_tail T).
+Definition Mmax (T : tables) : nat := S (maxl (fun p => wsum (Lt T) 0 (expand p)) (t_main T)).
+Definition Wmax (T : tables) : nat := S (maxl (fun p => wsum (Lt T) (Mmax T) (expand p)) (t_worker T)).
 
 Definition sig_w (W : nat) (pc : sigpc) : nat :=
   match pc with
@@ -726,42 +828,42 @@ Definition sig_w (W : nat) (pc : sigpc) : nat :=
   | SAccepted | SRefused => 0
   end.
 Definition rs_w (r : rstate) : nat := match r with RWait _ => 5 | RRun l => length l end.
-Definition rt_w (no : N) (r : retirement) : nat :=
+Definition rt_w (L : nat) (no : N) (r : retirement) : nat :=
   match rt_pc_of r with
-  | RtInit => 4
-  | RtWait (Some dl) => if (dl <=? no)%N then 2 else 3
-  | RtWait None => 2
-  | RtTail => 1
+  | RtInit => 4 + L
+  | RtWait (Some dl) => (if (dl <=? no)%N then 2 else 3) + L
+  | RtWait None => 2 + L
+  | RtTail => 1 + length (rt_tail r)
   | RtDone => 0
   end.
 
-Lemma rt_sum_cancel no l : sumf (rt_w no) (cancel_last l) = sumf (rt_w no) l.
+Lemma rt_sum_cancel L no l : sumf (rt_w L no) (cancel_last l) = sumf (rt_w L no) l.
 Proof. apply cancel_last_sumf. intro r. reflexivity. Qed.
 
-Lemma rt_w_mono no no' r : (no <= no')%N -> rt_w no' r <= rt_w no r.
+Lemma rt_w_mono L no no' r : (no <= no')%N -> rt_w L no' r <= rt_w L no r.
 Proof.
   intro H. unfold rt_w. destruct (rt_pc_of r) as [|[dl|]| |]; try lia.
   destruct (N.leb_spec dl no); destruct (N.leb_spec dl no'); lia.
 Qed.
 
-Lemma rt_sum_mono no no' l : (no <= no')%N -> sumf (rt_w no') l <= sumf (rt_w no) l.
+Lemma rt_sum_mono L no no' l : (no <= no')%N -> sumf (rt_w L no') l <= sumf (rt_w L no) l.
 Proof.
   intro H. induction l as [|r l IH]; [rewrite !sumf_nil; lia|].
-  rewrite !sumf_cons. pose proof (rt_w_mono no no' r H). lia.
+  rewrite !sumf_cons. pose proof (rt_w_mono L no no' r H). lia.
 Qed.
 
-Definition mu (W M : nat) (s : state) : nat :=
-  sumf (sig_w W) (sigs s) + length (queue s) * W + wsum M (w_prog s) + handoff s * M
-  + wsum M (m_prog s) + sumf rs_w (releasers s) + sumf (rt_w (now s)) (rets s).
+Definition mu (L W M : nat) (s : state) : nat :=
+  sumf (sig_w W) (sigs s) + length (queue s) * W + wsum L M (w_prog s) + handoff s * M
+  + wsum L M (m_prog s) + sumf rs_w (releasers s) + sumf (rt_w L (now s)) (rets s).
 
 Ltac mu_fin :=
   simpl; rewrite ?upd_app_len; unfold mu; simpl;
   rewrite ?sumf_app, ?rt_sum_cancel, ?sumf_cons, ?sumf_nil, ?app_length, ?wsum_app, ?Nat.mul_add_distr_r; simpl;
   try lia.
 
-Lemma mu_sig W M T s i pc :
+Lemma mu_sig L W M T s i pc :
   nth_error (sigs s) i = Some pc -> sig_done pc = false ->
-  mu W M (sig_step T s i) < mu W M s.
+  mu L W M (sig_step T s i) < mu L W M s.
 Proof.
   intros E Hd. unfold sig_step. rewrite E.
   apply nth_split in E. destruct E as (l1 & l2 & E1 & E2).
@@ -772,9 +874,9 @@ Proof.
     try (destruct su as [|su]; [|destruct (Nat.eqb su 0)]); mu_fin.
 Qed.
 
-Lemma mu_agent W M T who s p ps s' pre :
+Lemma mu_agent L W M T who s p ps s' pre :
   prog_of who s = p :: ps -> exec_prim T s p = (s', pre) ->
-  mu W M (set_prog who (pre ++ ps) s') < mu W M s.
+  mu L W M (set_prog who (pre ++ ps) s') < mu L W M s.
 Proof.
   intros Hp E.
   destruct s as [pe ac re su un no qu pr si wp ho mp prt dn rl ex tr rts nr].
@@ -793,44 +895,61 @@ Proof.
   - intros _. exists 0, y. split; [reflexivity | assumption].
 Qed.
 
+Lemma sumf_upd {A} (f : A -> nat) l i x y :
+  nth_error l i = Some y -> sumf f (upd l i x) + f y = sumf f l + f x.
+Proof.
+  intro E. apply nth_split in E. destruct E as (l1 & l2 & E1 & E2). subst.
+  rewrite upd_app_len, !sumf_app, !sumf_cons. lia.
+Qed.
+
+Lemma ret_next_w T no r :
+  rt_ok T no r -> rt_pc_of r <> RtDone ->
+  (forall dl, rt_pc_of r = RtWait (Some dl) ->
+     rt_cancelled r || rt_idle r || (dl <=? no)%N = true) ->
+  rt_w (Lt T) no (ret_next T no r) < rt_w (Lt T) no r.
+Proof.
+  intros (B1 & B2 & B3 & B4) Hnd Hw. unfold ret_next, rt_w, Lt in *.
+  destruct r as [pc ab ov B se idl can cl tl]. simpl in *.
+  destruct pc as [|[dl|]| |]; try congruence; simpl.
+  - destruct (ab || negb ov || Nat.eqb se 0); simpl; [lia|].
+    destruct (timer_armed (t_timer_guard T) B); simpl; [|lia].
+    destruct (N.leb (no + Z.to_N B) no); lia.
+  - rewrite (Hw dl eq_refl). simpl. destruct (N.leb dl no); lia.
+  - destruct tl as [|x rest]; [simpl; lia|]. destruct x; simpl; lia.
+Qed.
+
 Lemma mu_ret W M T s d r :
   R T s -> exited s = false -> nth_error (rets s) d = Some r -> rt_pc_of r <> RtDone ->
-  exists a, is_signal a = false /\ mu W M (step T s a) < mu W M s.
+  exists a, is_signal a = false /\ mu (Lt T) W M (step T s a) < mu (Lt T) W M s.
 Proof.
   intros [H1 H2] Hex E Hnd.
   assert (Hr : rt_ok T (now s) r).
   { rewrite Forall_forall in H2. apply H2. eapply nth_error_In; eassumption. }
-  destruct Hr as (_ & B2 & _).
-  apply nth_split in E. destruct E as (l1 & l2 & E1 & E2).
-  destruct s as [pe ac re su un no qu pr si wp ho mp prt dn rl ex tr rts nr].
-  simpl in *. subst rts d ex.
-  destruct r as [pc ab ov B se idl can]. simpl in *.
-  destruct pc as [|[dl|]| |]; try congruence.
-  - exists (ARetire (length l1)). split; [reflexivity|].
-    unfold step, ret_step; simpl. rewrite nth_error_mid. simpl.
-    destruct (ab || negb ov || Nat.eqb se 0); [|destruct (timer_armed (t_timer_guard T) B)];
-      unfold set_rt_pc; mu_fin; unfold rt_w; simpl;
-      try (destruct (N.leb (no + Z.to_N B) no)); lia.
-  - destruct (can || idl || (dl <=? no)%N) eqn:Ec.
-    + exists (ARetire (length l1)). split; [reflexivity|].
-      unfold step, ret_step; simpl. rewrite nth_error_mid. simpl. rewrite Ec.
-      unfold set_rt_pc; mu_fin; unfold rt_w; simpl. destruct (N.leb dl no); lia.
-    + apply orb_false_iff in Ec. destruct Ec as [_ Ec].
-      exists (AAdvance (dl - no)). split; [reflexivity|].
-      unfold step; simpl. unfold mu; simpl. rewrite !sumf_app, !sumf_cons.
-      assert (Hle : (no <= no + (dl - no))%N) by lia.
-      pose proof (rt_sum_mono _ _ l1 Hle). pose proof (rt_sum_mono _ _ l2 Hle).
-      unfold rt_w at 2 5. simpl. rewrite Ec.
-      assert (E3 : (dl <=? no + (dl - no))%N = true) by (apply N.leb_le; lia).
-      rewrite E3. lia.
-  - exists (ARetire (length l1)). split; [reflexivity|].
-    unfold step, ret_step; simpl. rewrite nth_error_mid. simpl.
-    unfold set_rt_pc; mu_fin.
+  assert (Hcase : (forall dl, rt_pc_of r = RtWait (Some dl) ->
+                     rt_cancelled r || rt_idle r || (dl <=? now s)%N = true) \/
+                  (exists dl, rt_pc_of r = RtWait (Some dl) /\ (dl <=? now s)%N = false)).
+  { destruct (rt_pc_of r) as [|[dl|]| |]; try (left; intros dl0 X; discriminate X).
+    destruct (rt_cancelled r || rt_idle r || (dl <=? now s)%N) eqn:Ec.
+    - left. intros dl0 X. inversion X; subst. exact Ec.
+    - right. exists dl. split; [reflexivity|]. apply orb_false_iff in Ec. apply Ec. }
+  destruct Hcase as [Hw|(dl & Epc & Ec)].
+  - exists (ARetire d). split; [reflexivity|]. unfold step. rewrite Hex.
+    rewrite (ret_view T s d r E). unfold mu. simpl.
+    pose proof (sumf_upd (rt_w (Lt T) (now s)) _ _ (ret_next T (now s) r) _ E).
+    pose proof (ret_next_w T (now s) r Hr Hnd Hw). lia.
+  - exists (AAdvance (dl - now s)). split; [reflexivity|]. unfold step. rewrite Hex.
+    unfold mu. simpl.
+    apply nth_split in E. destruct E as (l1 & l2 & E1 & E2). rewrite E1.
+    rewrite !sumf_app, !sumf_cons.
+    assert (Hle : (now s <= now s + (dl - now s))%N) by lia.
+    pose proof (rt_sum_mono (Lt T) _ _ l1 Hle). pose proof (rt_sum_mono (Lt T) _ _ l2 Hle).
+    assert (E3 : (dl <=? now s + (dl - now s))%N = true) by (apply N.leb_le; lia).
+    unfold rt_w at 2 5. rewrite Epc, Ec, E3. lia.
 Qed.
 
 Lemma mu_rel W M T s r y :
   R T s -> CInv s -> exited s = false -> nth_error (releasers s) r = Some y -> rs_done y = false ->
-  exists a, is_signal a = false /\ mu W M (step T s a) < mu W M s.
+  exists a, is_signal a = false /\ mu (Lt T) W M (step T s a) < mu (Lt T) W M s.
 Proof.
   intros HR C Hex E Hd.
   pose proof (nth_error_forallb _ _ _ _ (ci_rl _ C) E) as Hy.
@@ -848,7 +967,7 @@ Proof.
       destruct (Forall2_nth _ _ _ _ _ H1 E0) as (b0 & Eb & Hb).
       rewrite (nth_of_nth_error _ _ _ false Eb) in En. subst b0.
       apply (mu_ret W M T s d r0); [split; assumption | exact Hex | exact E0 |].
-      intro X. specialize (Hb X). discriminate Hb.
+      intro X. destruct Hb as [_ Hb]. rewrite X in Hb. discriminate Hb.
   - (* running clearReloadPending *)
     exists (AReleaser r). split; [reflexivity|]. unfold step, rel_step. rewrite Hex, E.
     unfold prog_step.
@@ -862,7 +981,7 @@ Qed.
 
 Lemma progress_step T s :
   tables_ok T = true -> R T s -> CInv s -> exited s = false -> settled s = false ->
-  exists a, is_signal a = false /\ mu (Wmax T) (Mmax T) (step T s a) < mu (Wmax T) (Mmax T) s.
+  exists a, is_signal a = false /\ mu (Lt T) (Wmax T) (Mmax T) (step T s a) < mu (Lt T) (Wmax T) (Mmax T) s.
 Proof.
   intros HT HR C Hex Hs.
   destruct (forallb sig_done (sigs s)) eqn:E1.
@@ -871,15 +990,15 @@ Proof.
   destruct (w_prog s) as [|p ps] eqn:Ew.
   2:{ exists AWorker. split; [reflexivity|]. unfold step. rewrite Hex, Ew. unfold prog_step.
       destruct (exec_prim T s p) as [s' pre] eqn:E.
-      exact (mu_agent _ _ T true s p ps s' pre Ew E). }
+      exact (mu_agent _ _ _ T true s p ps s' pre Ew E). }
   destruct (m_prog s) as [|p ps] eqn:Em.
   2:{ exists AMain. split; [reflexivity|]. unfold step. rewrite Hex, Em. unfold prog_step.
       destruct (exec_prim T s p) as [s' pre] eqn:E.
-      exact (mu_agent _ _ T false s p ps s' pre Em E). }
+      exact (mu_agent _ _ _ T false s p ps s' pre Em E). }
   destruct (queue s) as [|q0 q'] eqn:Eq.
   2:{ destruct (tables_w0 T HT) as [path Ep].
       exists (AWorkerTake 0). split; [reflexivity|]. unfold step. rewrite Hex, Ew, Eq, Ep.
-      pose proof (maxl_ge (fun p => wsum (Mmax T) (expand p)) _ _ (nth_error_In _ _ Ep)) as Hle.
+      pose proof (maxl_ge (fun p => wsum (Lt T) (Mmax T) (expand p)) _ _ (nth_error_In _ _ Ep)) as Hle.
       simpl in Hle. fold (Wmax T) in Hle. unfold mu. simpl. rewrite Ew, Eq. simpl.
       unfold Wmax at 2 4. lia. }
   destruct (handoff s) as [|h] eqn:Eh.
@@ -887,9 +1006,9 @@ Proof.
       destruct (tables_main T 0 path HT Ep) as (_ & _ & _ & _ & _ & _ & R7).
       assert (Er : reloading s = true) by (apply (ci_f _ C); lia).
       exists (AMainStart 0). split; [reflexivity|]. unfold step. rewrite Hex, Em, Er, Ep.
-      pose proof (maxl_ge (fun p => wsum 0 (expand p)) _ _ (nth_error_In _ _ Ep)) as Hle.
+      pose proof (maxl_ge (fun p => wsum (Lt T) 0 (expand p)) _ _ (nth_error_In _ _ Ep)) as Hle.
       simpl in Hle. unfold mu. simpl. rewrite Em, Eh. simpl.
-      rewrite (wsum_nohandoff _ _ R7). unfold Mmax at 2 4. lia. }
+      rewrite (wsum_nohandoff _ _ _ R7). unfold Mmax at 2 4. lia. }
   destruct (forallb rs_done (releasers s)) eqn:E6.
   - exfalso. unfold settled in Hs. rewrite E1, Eq, Ew, Eh, Em, E6 in Hs. discriminate.
   - destruct (forallb_false_nth _ _ E6) as (r & y & H1 & H2).
@@ -897,7 +1016,7 @@ Proof.
 Qed.
 
 Lemma no_wedge_from T :
-  tables_ok T = true -> forall n s, Inv s -> R T s -> mu (Wmax T) (Mmax T) s < n ->
+  tables_ok T = true -> forall n s, Inv s -> R T s -> mu (Lt T) (Wmax T) (Mmax T) s < n ->
   exists sched' : list action,
     forallb (fun a => negb (is_signal a)) sched' = true /\
     let s' := run_from T s sched' in
@@ -928,7 +1047,7 @@ Lemma C20_no_wedge_proof :
       (settled s' = true /\ pending s' = false /\ supp s' = 0 /\ active s' = false /\ reloading s' = false).
 Proof.
   intros T sched HT.
-  destruct (no_wedge_from T HT (S (mu (Wmax T) (Mmax T) (run T sched))) (run T sched)
+  destruct (no_wedge_from T HT (S (mu (Lt T) (Wmax T) (Mmax T) (run T sched))) (run T sched)
               (run_inv T sched HT) (run_from_R T _ sched HT (init_R T)) (Nat.lt_succ_diag_r _)) as (l & Hl & Hend).
   exists l. split; [exact Hl|]. unfold run. rewrite run_from_app. exact Hend.
 Qed.
@@ -1080,80 +1199,121 @@ Lemma C20_nonvacuous_proof :
 Proof. vm_compute. repeat split; reflexivity. Qed.
 
 (* ------------------------------------------------------------------ retirement terminates *)
-Lemma ret_step_rec T pe ac re su un no qu pr si wp ho mp prt dn rl tr l1 r l2 nr :
-  step T (Build_state pe ac re su un no qu pr si wp ho mp prt dn rl false tr (l1 ++ r :: l2) nr)
-         (ARetire (length l1)) =
-  match rt_pc_of r with
-  | RtInit =>
-      if rt_abort r || negb (rt_overlap r) || Nat.eqb (rt_sessions r) 0
-      then Build_state pe ac re su un no qu pr si wp ho mp prt dn rl false tr (l1 ++ set_rt_pc RtTail r :: l2) nr
-      else Build_state pe ac re su un no qu pr si wp ho mp prt dn rl false tr
-             (l1 ++ set_rt_pc (RtWait (if timer_armed (t_timer_guard T) (rt_budget r)
-                                       then Some (no + Z.to_N (rt_budget r))%N else None)) r :: l2) nr
-  | RtWait dl =>
-      if rt_cancelled r || rt_idle r || match dl with Some t => (t <=? no)%N | None => false end
-      then Build_state pe ac re su un no qu pr si wp ho mp prt dn rl false tr (l1 ++ set_rt_pc RtTail r :: l2) nr
-      else Build_state pe ac re su un no qu pr si wp ho mp prt dn rl false tr (l1 ++ r :: l2) nr
-  | RtTail => Build_state pe ac re su un no qu pr si wp ho mp prt (upd dn (length l1) true) rl false tr
-                (l1 ++ set_rt_pc RtDone r :: l2) nr
-  | RtDone => Build_state pe ac re su un no qu pr si wp ho mp prt dn rl false tr (l1 ++ r :: l2) nr
+Definition ret_act (d : nat) (a : action) : bool :=
+  match a with ARetire d' => Nat.eqb d' d | AAdvance _ => true | _ => false end.
+Definition sim (T : tables) (x : N * retirement) (a : action) : N * retirement :=
+  match a with
+  | ARetire _ => (fst x, ret_next T (fst x) (snd x))
+  | AAdvance k => ((fst x + k)%N, snd x)
+  | _ => x
   end.
+
+Lemma run_sim T d l : forall s r,
+  forallb (ret_act d) l = true -> exited s = false -> nth_error (rets s) d = Some r ->
+  exited (run_from T s l) = false /\ releasers (run_from T s l) = releasers s /\
+  nth_error (rets (run_from T s l)) d = Some (snd (fold_left (sim T) l (now s, r))).
 Proof.
-  unfold step, ret_step; simpl. rewrite nth_error_mid.
-  destruct (rt_pc_of r) as [|dl| |]; try reflexivity.
-  - destruct (rt_abort r || negb (rt_overlap r) || Nat.eqb (rt_sessions r) 0);
-      rewrite upd_app_len; reflexivity.
-  - destruct (rt_cancelled r || rt_idle r || match dl with Some t => (t <=? no)%N | None => false end);
-      [rewrite upd_app_len|]; reflexivity.
-  - rewrite upd_app_len. reflexivity.
+  induction l as [|a l IH]; intros s r Hl Hex E; [simpl; auto|].
+  simpl in Hl. apply andb_prop in Hl. destruct Hl as [Ha Hl].
+  destruct a; try discriminate Ha.
+  - apply Nat.eqb_eq in Ha. subst d0.
+    set (s1 := set_rets (upd (rets s) d (ret_next T (now s) r))
+                 (set_dones (if ret_closes r then upd (dones s) d true else dones s) s)).
+    assert (Es : step T s (ARetire d) = s1).
+    { unfold step. rewrite Hex. apply ret_view. exact E. }
+    change (run_from T s (ARetire d :: l)) with (run_from T (step T s (ARetire d)) l).
+    change (fold_left (sim T) (ARetire d :: l) (now s, r))
+      with (fold_left (sim T) l (now s1, ret_next T (now s) r)).
+    rewrite Es.
+    assert (E1 : nth_error (rets s1) d = Some (ret_next T (now s) r)).
+    { simpl. eapply upd_nth_same; exact E. }
+    exact (IH s1 _ Hl Hex E1).
+  - set (s1 := set_now (now s + n)%N s).
+    assert (Es : step T s (AAdvance n) = s1) by (unfold step; rewrite Hex; reflexivity).
+    change (run_from T s (AAdvance n :: l)) with (run_from T (step T s (AAdvance n)) l).
+    change (fold_left (sim T) (AAdvance n :: l) (now s, r))
+      with (fold_left (sim T) l (now s1, r)).
+    rewrite Es. exact (IH s1 r Hl Hex E).
 Qed.
 
-Lemma adv_rec T pe ac re su un no qu pr si wp ho mp prt dn rl tr rts nr k :
-  step T (Build_state pe ac re su un no qu pr si wp ho mp prt dn rl false tr rts nr) (AAdvance k) =
-  Build_state pe ac re su un (no + k)%N qu pr si wp ho mp prt dn rl false tr rts nr.
-Proof. reflexivity. Qed.
+Lemma phaseA T no r k :
+  guard_total (t_timer_guard T) = true -> rt_ok T no r -> (Z.to_N (rt_budget r) <= k)%N ->
+  let r3 := ret_next T (no + k) (ret_next T no r) in
+  rt_pc_of r3 = RtTail \/ rt_pc_of r3 = RtDone.
+Proof.
+  intros HG (B1 & B2 & B3 & B4) Hk.
+  pose proof (timer_armed_total _ _ HG (proj1 B1)) as Harm.
+  destruct r as [pc ab ov B se idl can cl tl]. simpl in *.
+  assert (Ek1 : (no + Z.to_N B <=? no + k)%N = true) by (apply N.leb_le; lia).
+  destruct pc as [|[dl|]| |]; try congruence; unfold ret_next; simpl.
+  - destruct (ab || negb ov || Nat.eqb se 0); simpl.
+    + destruct tl as [|x rest]; [|destruct x]; simpl; auto.
+    + rewrite Harm. simpl. rewrite Ek1, orb_true_r. simpl. auto.
+  - assert (Ek2 : (dl <=? no + k)%N = true).
+    { apply N.leb_le. specialize (B3 dl eq_refl). lia. }
+    destruct (can || idl || (dl <=? no)%N); simpl.
+    + destruct tl as [|x rest]; [|destruct x]; simpl; auto.
+    + rewrite Ek2, orb_true_r. simpl. auto.
+  - destruct tl as [|x rest]; [simpl; auto|].
+    destruct x; simpl; (destruct rest as [|x' rest']; [|destruct x']); simpl; auto.
+  - auto.
+Qed.
+
+Lemma phaseB T d : forall n no r,
+  (rt_pc_of r = RtTail \/ rt_pc_of r = RtDone) ->
+  (rt_pc_of r = RtTail -> length (rt_tail r) < n) ->
+  rt_pc_of (snd (fold_left (sim T) (repeat (ARetire d) n) (no, r))) = RtDone.
+Proof.
+  induction n as [|n IH]; intros no r Hpc Hlen; simpl.
+  - destruct Hpc as [Hp|Hp]; [specialize (Hlen Hp); lia | exact Hp].
+  - apply IH.
+    + unfold ret_next. destruct Hpc as [Hp|Hp]; rewrite Hp; [|auto].
+      destruct (rt_tail r) as [|x rest]; [simpl; auto|]. destruct x; simpl; auto.
+    + unfold ret_next. destruct Hpc as [Hp|Hp]; rewrite Hp.
+      * specialize (Hlen Hp). destruct (rt_tail r) as [|x rest]; [simpl; intro X; discriminate X|].
+        destruct x; simpl in *; intros _; lia.
+      * intro X. congruence.
+Qed.
+
+Lemma ret_next_len T no r : length (rt_tail (ret_next T no r)) <= length (rt_tail r).
+Proof.
+  unfold ret_next. destruct r as [pc ab ov B se idl can cl tl]. simpl.
+  destruct pc as [|dl| |]; simpl; try lia.
+  - destruct (ab || negb ov || Nat.eqb se 0); simpl; lia.
+  - destruct (can || idl || match dl with Some t => (t <=? no)%N | None => false end); simpl; lia.
+  - destruct tl as [|x rest]; [simpl; lia|]. destruct x; simpl; lia.
+Qed.
+
+Lemma forallb_repeat {A} (f : A -> bool) a n : f a = true -> forallb f (repeat a n) = true.
+Proof. intro H. induction n; simpl; [reflexivity | rewrite H, IHn; reflexivity]. Qed.
 
 Definition ret_fin (d : nat) (s0 st : state) : Prop :=
   nth d (dones st) false = true /\ exited st = false /\ releasers st = releasers s0.
 
-Ltac ret_go Harm Ek :=
-  repeat (first [rewrite ret_step_rec | rewrite adv_rec];
-          cbn [rt_pc_of rt_abort rt_overlap rt_budget rt_sessions rt_idle rt_cancelled set_rt_pc];
-          rewrite ?Harm, ?Ek, ?orb_true_r;
-          try match goal with |- context [if ?c then _ else _] => destruct c end).
-
-Ltac ret_end Hlt :=
-  unfold ret_fin; cbn [dones exited releasers];
-  split; [first [apply nth_upd_same; exact Hlt | auto] | split; reflexivity].
-
 Lemma retire_schedule_done T s d r k :
   tables_ok T = true -> R T s -> exited s = false -> nth_error (rets s) d = Some r ->
   (Z.to_N (rt_budget r) <= k)%N ->
-  ret_fin d s (run_from T s (retire_schedule d k)).
+  ret_fin d s (run_from T s (retire_schedule T d k)).
 Proof.
-  intros HT [H1 H2] Hex E Hk.
+  intros HT HR Hex E Hk.
   assert (Hr : rt_ok T (now s) r).
-  { rewrite Forall_forall in H2. apply H2. eapply nth_error_In; eassumption. }
-  destruct Hr as (B1 & B2 & B3).
-  destruct (Forall2_nth _ _ _ _ _ H1 E) as (b0 & Eb & Hb).
-  pose proof (nth_error_some_lt _ _ _ Eb) as Hlt.
-  pose proof (nth_of_nth_error _ _ _ false Eb) as Hn.
-  pose proof (timer_armed_total _ _ (tables_guard T HT) (proj1 B1)) as Harm.
-  apply nth_split in E. destruct E as (l1 & l2 & E1 & E2).
-  destruct s as [pe ac re su un no qu pr si wp ho mp prt dn rl ex tr rts nr].
-  simpl in *. subst rts d ex. clear H1 H2 Eb.
-  destruct r as [pc ab ov B se idl can]. simpl in *.
-  unfold run_from, retire_schedule. cbn [fold_left].
-  assert (Ek1 : (no + Z.to_N B <=? no + k)%N = true) by (apply N.leb_le; lia).
-  destruct pc as [|[dl|]| |].
-  - ret_go Harm Ek1; ret_end Hlt.
-  - assert (Ek2 : (dl <=? no + k)%N = true).
-    { apply N.leb_le. specialize (B3 dl eq_refl). lia. }
-    ret_go Harm Ek2; ret_end Hlt.
-  - congruence.
-  - ret_go Harm Ek1; ret_end Hlt.
-  - ret_go Harm Ek1. unfold ret_fin; cbn [dones exited releasers].
-    split; [rewrite Hn; apply Hb; reflexivity | split; reflexivity].
+  { destruct HR as [_ H2]. rewrite Forall_forall in H2. apply H2. eapply nth_error_In; eassumption. }
+  pose proof (tables_guard T HT) as HG.
+  assert (Hl : forallb (ret_act d) (retire_schedule T d k) = true).
+  { unfold retire_schedule. rewrite forallb_app. simpl. rewrite Nat.eqb_refl. simpl.
+    rewrite forallb_repeat; [reflexivity | simpl; apply Nat.eqb_refl]. }
+  destruct (run_sim T d _ s r Hl Hex E) as (I1 & I2 & I3).
+  assert (Hd : rt_pc_of (snd (fold_left (sim T) (retire_schedule T d k) (now s, r))) = RtDone).
+  { unfold retire_schedule. rewrite fold_left_app. cbn [fold_left app sim fst snd].
+    apply phaseB.
+    - apply phaseA; assumption.
+    - intros _. destruct Hr as (_ & _ & _ & B4).
+      pose proof (ret_next_len T (now s + k) (ret_next T (now s) r)).
+      pose proof (ret_next_len T (now s) r). lia. }
+  pose proof (run_from_R T s (retire_schedule T d k) HT HR) as [H1 _].
+  destruct (Forall2_nth _ _ _ _ _ H1 I3) as (b0 & Eb & Hb).
+  destruct Hb as [_ Hb]. rewrite Hd in Hb. subst b0.
+  split; [exact (nth_of_nth_error _ _ _ false Eb) | split; assumption].
 Qed.
 
 Lemma C20_retirement_terminates_proof :
@@ -1164,14 +1324,14 @@ Lemma C20_retirement_terminates_proof :
     rt_pc_of r <> RtWait None /\
     (forall dl, rt_pc_of r = RtWait (Some dl) -> (dl <= now s + Z.to_N (rt_budget r))%N) /\
     ((Z.to_N (rt_budget r) <= k)%N ->
-       let s' := run_from T s (retire_schedule d k) in
+       let s' := run_from T s (retire_schedule T d k) in
        nth d (dones s') false = true /\ exited s' = false).
 Proof.
   intros T sched d r k HT s Hex E.
   assert (HR : R T s) by (apply run_from_R; [exact HT | apply init_R]).
   assert (Hr : rt_ok T (now s) r).
   { destruct HR as [_ H2]. rewrite Forall_forall in H2. apply H2. eapply nth_error_In; eassumption. }
-  destruct Hr as (B1 & B2 & B3).
+  destruct Hr as (B1 & B2 & B3 & _).
   split; [exact B1|]. split; [exact B2|]. split; [exact B3|].
   intros Hk s'. destruct (retire_schedule_done T s d r k HT HR Hex E Hk) as (F1 & F2 & _).
   split; assumption.
@@ -1198,7 +1358,7 @@ Lemma C20_retirement_releases_proof :
     let s := run T sched in
     exited s = false -> nth_error (releasers s) x = Some (RWait d) -> nth_error (rets s) d = Some r ->
     (Z.to_N (rt_budget r) <= k)%N ->
-    let s' := run_from T s (retire_schedule d k ++ [AReleaser x; AReleaser x; AReleaser x; AReleaser x]) in
+    let s' := run_from T s (retire_schedule T d k ++ [AReleaser x; AReleaser x; AReleaser x; AReleaser x]) in
     pending s' = false /\ nth_error (releasers s') x = Some (RRun []) /\ supp s' = mute_owed s'.
 Proof.
   intros T sched x d r k HT s Hex Ex Er Hk s'.
@@ -1206,7 +1366,7 @@ Proof.
   destruct (retire_schedule_done T s d r k HT HR Hex Er Hk) as (F1 & F2 & F3).
   assert (HI : Inv s') by (apply run_from_inv; [exact HT | apply run_inv; exact HT]).
   subst s'. rewrite run_from_app in *.
-  set (s1 := run_from T s (retire_schedule d k)) in *.
+  set (s1 := run_from T s (retire_schedule T d k)) in *.
   rewrite <- F3 in Ex.
   change (run_from T s1 [AReleaser x; AReleaser x; AReleaser x; AReleaser x])
     with (step T (step T (step T (step T s1 (AReleaser x)) (AReleaser x)) (AReleaser x)) (AReleaser x)) in *.
@@ -1525,5 +1685,118 @@ Proof.
   exists demo_tables,
     [ASignal false; ASig 0; ASig 0; ASig 0; AWorkerTake 1; AWorker; AWorker; AWorker; AWorker;
      AMainStart 0; AMain; AMain; AMain; AMain; AMain; AMain; AWorker].
+  vm_compute. repeat split; reflexivity.
+Qed.
+
+(* ------------------------------------------------------------------ done is closed only after the
+   previous generation is *)
+Lemma nth_true_lt l d : nth d l false = true -> d < length l.
+Proof.
+  revert d; induction l as [|a l IH]; intros d H; [destruct d; discriminate|].
+  destruct d; simpl in *; [lia | specialize (IH _ H); lia].
+Qed.
+
+Lemma done_closed T s d : R T s -> nth d (dones s) false = true -> gen_closed s d = true.
+Proof.
+  intros [H1 _] Hn. pose proof (nth_true_lt _ _ Hn) as Hlt.
+  rewrite <- (F2_length _ _ _ H1) in Hlt.
+  destruct (nth_error_lt _ _ Hlt) as [r E].
+  destruct (Forall2_nth _ _ _ _ _ H1 E) as (b & Eb & Hb & _).
+  rewrite (nth_of_nth_error _ _ _ false Eb) in Hn. unfold gen_closed. rewrite E. auto.
+Qed.
+
+Lemma nth_error_upd_neq {A} (l : list A) i j x : i <> j -> nth_error (upd l i x) j = nth_error l j.
+Proof.
+  revert i j; induction l as [|a l IH]; intros i j H; [reflexivity|].
+  destruct i, j; simpl; try reflexivity; [congruence | apply IH; congruence].
+Qed.
+
+Lemma exec_prim_releasers T s p s' pre :
+  exec_prim T s p = (s', pre) ->
+  releasers s' = releasers s \/ exists y, releasers s' = releasers s ++ [y].
+Proof.
+  destruct p; simpl; unfold end_supp;
+    repeat match goal with |- context [match ?x with _ => _ end] => destruct x end;
+    intro E; inversion E; simpl; eauto.
+Qed.
+
+Lemma nth_error_keep {A} (l l' : list A) x y :
+  (l' = l \/ exists z, l' = l ++ [z]) -> nth_error l x = Some y -> nth_error l' x = Some y.
+Proof.
+  intros [H|[z H]] E; subst; [exact E|].
+  rewrite nth_error_app1; [exact E | eapply nth_error_some_lt; exact E].
+Qed.
+
+Lemma sig_step_releasers T s i : releasers (sig_step T s i) = releasers s.
+Proof.
+  unfold sig_step. destruct (nth_error (sigs s) i) as [pc|]; [|reflexivity].
+  destruct pc; try reflexivity; simpl.
+  - destruct (pending s); reflexivity.
+  - destruct (Nat.ltb (length (queue s)) (t_cap T)); reflexivity.
+  - unfold end_supp. destruct (supp s); [reflexivity|]. destruct (Nat.eqb n 0); reflexivity.
+Qed.
+
+Lemma wait_left_only_when_done T s a x d :
+  nth_error (releasers s) x = Some (RWait d) ->
+  nth_error (releasers (step T s a)) x <> Some (RWait d) ->
+  nth d (dones s) false = true.
+Proof.
+  intros E Hn. unfold step in Hn. destruct (exited s); [contradiction|].
+  destruct a as [b|i|k| |k| |d0|p|d0|n|r| ].
+  - contradiction.
+  - rewrite sig_step_releasers in Hn. contradiction.
+  - exfalso. apply Hn. destruct (w_prog s); [|exact E]. destruct (queue s); [exact E|].
+    destruct (nth_error (t_worker T) k); exact E.
+  - exfalso. apply Hn. destruct (w_prog s) as [|p ps]; [exact E|]. unfold prog_step.
+    destruct (exec_prim T s p) as [s' pre] eqn:E'. simpl.
+    exact (nth_error_keep _ _ _ _ (exec_prim_releasers _ _ _ _ _ E') E).
+  - exfalso. apply Hn. destruct (m_prog s); [|exact E]. destruct (reloading s); [|exact E].
+    destruct (nth_error (t_main T) k); exact E.
+  - exfalso. apply Hn. destruct (m_prog s) as [|p ps]; [exact E|]. unfold prog_step.
+    destruct (exec_prim T s p) as [s' pre] eqn:E'. simpl.
+    exact (nth_error_keep _ _ _ _ (exec_prim_releasers _ _ _ _ _ E') E).
+  - exfalso. apply Hn. ret_cases; exact E.
+  - contradiction.
+  - exfalso. apply Hn. destruct (nth_error (rets s) d0); exact E.
+  - contradiction.
+  - unfold rel_step in Hn.
+    destruct (Nat.eq_dec r x) as [Erx|Erx].
+    + subst r. rewrite E in Hn. destruct (nth d (dones s) false); [reflexivity | contradiction].
+    + exfalso. apply Hn.
+      destruct (nth_error (releasers s) r) as [[d1|[|p ps]]|]; try exact E.
+      * destruct (nth d1 (dones s) false); [|exact E]. simpl.
+        rewrite nth_error_upd_neq; [exact E | exact Erx].
+      * unfold prog_step. destruct (exec_prim T s p) as [s' pre] eqn:E'. simpl.
+        rewrite nth_error_upd_neq; [|exact Erx].
+        exact (nth_error_keep _ _ _ _ (exec_prim_releasers _ _ _ _ _ E') E).
+  - contradiction.
+Qed.
+
+Lemma C20_release_only_after_close_proof :
+  forall (T : tables) (sched : list action) (a : action) (x d : nat), tables_ok T = true ->
+    let s := run T sched in
+    (nth d (dones s) false = true -> gen_closed s d = true) /\
+    (nth_error (releasers s) x = Some (RWait d) ->
+     nth_error (releasers (step T s a)) x <> Some (RWait d) -> gen_closed s d = true).
+Proof.
+  intros T sched a x d HT s.
+  assert (HR : R T s) by (apply run_from_R; [exact HT | apply init_R]).
+  split; [apply (done_closed T); exact HR|].
+  intros E Hn. apply (done_closed T); [exact HR|].
+  eapply wait_left_only_when_done; eassumption.
+Qed.
+
+Lemma C20_release_only_after_close_any_tail_refuted_proof :
+  exists (T : tables) (sched : list action),
+    t_ret_tail T = [TCancel; TCloseDone; TCloseGen; TCleanup; TOther] /\
+    let s := run T sched in
+    exited s = false /\ gen_closed s 0 = false /\ nth 0 (dones s) false = true /\
+    pending s = true /\ count_ev is_accept (history s) = 2 /\ count_ev is_release (history s) = 1.
+Proof.
+  exists (Build_tables (t_worker demo_tables) (t_main demo_tables) 1 (t_quiesce demo_tables) GAlways
+            (t_budget_total demo_tables) [TCancel; TCloseDone; TCloseGen; TCleanup; TOther]),
+    (demo_schedule_mid ++ [AMain; AMain; AMain; AMain; AMain; ARetire 0; ARetire 0; ARetire 0;
+                           AReleaser 0; AReleaser 0; AReleaser 0; AReleaser 0;
+                           ASignal false; ASig 2; ASig 2; ASig 2]).
   vm_compute. repeat split; reflexivity.
 Qed.
